@@ -121,9 +121,55 @@ func (c *C) freshValue(v ssa.Value, depth int, seen map[ssa.Value]bool) bool {
 			}
 			return true
 		}
+		// rec.field of a local record, assigned just before in the same block (found.list = NewList(); Set(key, found.list))
+		if fa, ok := x.X.(*ssa.FieldAddr); ok && x.Op == token.MUL {
+			if al, ok := fa.X.(*ssa.Alloc); ok {
+				var last ssa.Value
+				for _, in := range x.Block().Instrs {
+					if in == ssa.Instruction(x) {
+						break
+					}
+					st, ok := in.(*ssa.Store)
+					if !ok {
+						continue
+					}
+					if st.Addr == ssa.Value(al) {
+						last = nil
+					}
+					if f2, ok := st.Addr.(*ssa.FieldAddr); ok && f2.X == ssa.Value(al) && f2.Field == fa.Field {
+						last = st.Val
+					}
+				}
+				if last != nil {
+					return c.freshValue(last, depth+1, seen)
+				}
+			}
+		}
 		return false
 	case *ssa.Call:
 		cf := x.Call.StaticCallee()
+		// a constructor handed in as a function argument (fetchOrCreate(m, key, NewHash)): every function the call
+		// sites bind to that parameter returns a fresh value
+		if prm, isP := x.Call.Value.(*ssa.Parameter); isP && cf == nil {
+			fab, _ := c.funcArgBindings()
+			gs := fab[prm]
+			if len(gs) == 0 {
+				return false
+			}
+			for _, g := range gs {
+				if g.Blocks == nil {
+					return false
+				}
+				for _, b := range g.Blocks {
+					if ret, ok := b.Instrs[len(b.Instrs)-1].(*ssa.Return); ok && len(ret.Results) >= 1 {
+						if !c.freshValue(ret.Results[0], depth+1, map[ssa.Value]bool{}) {
+							return false
+						}
+					}
+				}
+			}
+			return true
+		}
 		if cf == nil || !firstParty(cf) || cf.Blocks == nil {
 			return false
 		}
@@ -145,6 +191,9 @@ func (c *C) freshValue(v ssa.Value, depth int, seen map[ssa.Value]bool) bool {
 var rR26 = RuleRef{Name: "R26", Doc: "no aliasing between keys: a container stored with db.Set is freshly allocated on every path (constructor, or an algebra method all of whose returns are fresh), or is the object already stored under the same key, or is moved from a key that is deleted in the same hold; otherwise a later update of one key silently changes the other", Run: func(c *C) {
 	n := 0
 	for _, fn := range c.P.allFuncs("memdb") {
+		if fn.TypeParams().Len() > 0 && len(fn.TypeArgs()) == 0 {
+			continue // the uninstantiated body of a generic helper: its instances are what runs, and what is judged
+		}
 		ord := map[string]int{}
 		for _, b := range fn.Blocks {
 			for _, in := range b.Instrs {
